@@ -195,7 +195,7 @@ func runC17(bc *BCase) (*CaseStats, error) {
 		if err := w.checkSizes(); err != nil {
 			return st, fmt.Errorf("byte array of %d bytes: %v", len(data), err)
 		}
-		if err := atree.VerifyArray(a, addr, ti, CompareTI, HIP, true); err != nil {
+		if err := atree.VerifyArray(a, addr, ti, CompareTI, e.CB.PlainHIP, true); err != nil {
 			return st, fmt.Errorf("byte array of %d bytes rejected by the in-repo verifier: %v", len(data), err)
 		}
 		if err := e.checkHealth(w); err != nil {
@@ -334,7 +334,7 @@ func (e *Engine) mapBatch(bc *BCase, src *Node) error {
 			if src.Dig != nil {
 				return src.Dig.digest(ck, 0)
 			}
-			return defaultDigests(keyValue(src.Ents[ck].K), src.HM.Seed())[0]
+			return e.defaultDigests(keyValue(src.Ents[ck].K), src.HM.Seed())[0]
 		}
 		for i := len(stream) - 1; i > 0; i-- {
 			if d0(stream[i].ck) > d0(stream[0].ck) {
@@ -675,6 +675,9 @@ func init() {
 				bc.Est = rapid.SampledFrom([]uint32{0, 3, 4, 1}).Draw(t, "est")
 				bc.Z = rapid.IntRange(0, 1).Draw(t, "bz")
 			case "mapbatch":
+				if rapid.IntRange(0, 2).Draw(t, "hipgroups") == 0 {
+					bc.Cfg.HipGroups = rapid.SampledFrom([]int{4, 64}).Draw(t, "hipg")
+				}
 				bc.Bad = rapid.SampledFrom([]string{"", "", "", "", "unsorted", "dup"}).Draw(t, "bad")
 				if rapid.IntRange(0, 2).Draw(t, "dig") == 0 {
 					bc.Root = RootSpec{K: "map", Addr: 1, TI: 2, Dig: genDigSpec(t)}
